@@ -1,14 +1,151 @@
-import SSV.Model.Dns
+import SSV.Proofs.Lru
+import SSV.Proofs.Dns
 /-
-C17 — property theorems.
+C17 — The resolver returns only upstream's answers, honours TTLs, degrades safely.
+
+Property theorems about the models `SSV.Model.Lru` (cache/cache.go) and `SSV.Model.Dns`
+(dns/dns.go). Facts that come from the source (`SSV.Gen.C17`): the two transaction ids, the
+rcode classes, the shape of every expiry assignment of `parseMsg` (`failureExpiryMin`,
+`answerExpiryMin`, `soaOnlyIfZero`), the caching time of failures, the retry counts.
+`expiry_le_every_ttl` needs `failureExpiryMin = true`: with the pinned source (finding F11:
+a failure rcode overwrites the expiry unconditionally) it does not check.
 -/
 namespace SSV.C17
-open SSV.Dns SSV.Gen.C17
+open SSV.Dns SSV.Gen.C17 SSV.Lru
 
-/-- A response whose header does not parse changes nothing. -/
-theorem garbage_no_effect (b : Builder) (now : Nat) (isUDP : Bool) :
-    parseMsg b now .garbage isUDP = (b, none) := rfl
+/-! ### LRU cache -/
+
+/-- **lru_refines_map.** For EVERY capacity and EVERY sequence of Get/Set/Insert/Remove/Contains,
+the pointer-level model of `BoundedCache` (heap nodes with `prev`/`next`, `head`, `tail`, the
+`nodeByKey` index) never dereferences nil, answers exactly like a map restricted to the `cap` most
+recently used keys (`Lru.Spec`), and its list and index stay consistent: `All()` enumerates exactly
+the represented entries from least to most recently used and terminates, `Backward()` the reverse,
+`Len()` is their number, keys are distinct and there are never more than `cap` of them. -/
+theorem lru_refines_map {K V : Type} [DecidableEq K] (capacity : Int) (ops : List (Lru.Op K V)) :
+    ∃ c outs s,
+      Lru.run (Lru.new capacity) ops = some (c, outs) ∧
+      Lru.Spec.run (Lru.new capacity : Lru.Cache K V).cap [] ops = (s, outs) ∧
+      Lru.all c = (s, true) ∧ Lru.backward c = (s.reverse, true) ∧ Lru.len c = s.length ∧
+      (s.map Prod.fst).Nodup ∧ s.length ≤ c.cap ∧ c.cap = (Lru.new capacity : Lru.Cache K V).cap :=
+  Lru.run_refines capacity ops
+
+example : (Lru.run (Lru.new 2 : Lru.Cache Nat Nat) [.set 1 10, .set 2 20, .get 1, .set 3 30, .get 2, .get 1]).map (·.2)
+    = some [.done, .done, .got (some 10), .done, .got none, .got (some 10)] := by decide
+
+/-- the specification really is a bounded map: a `Get` changes no binding -/
+theorem spec_get_keeps_bindings {K V : Type} [DecidableEq K] (s : Lru.Spec K V) (k k' : K) :
+    Lru.Spec.find (Lru.Spec.get s k).1 k' = Lru.Spec.find s k' := find_get s k k'
+
+/-! ### TTLs -/
+
+/-- **expiry_le_every_ttl.** Whatever the upstream script (UDP events, TCP connections) and the
+configuration: the builder `sendQueries` ends with is the result of feeding `parseMsg` a sequence
+`tr` of timed messages that all really came from upstream (datagrams from the configured server
+address, frames of the lookup's TCP connections), and for EVERY message of that sequence that was
+looked at (its family still open, usable header): the final expiry is set and is at most
+`receive time + ttl` for every answer record of it (also the record whose body fails to parse
+is covered by `parseMsg` itself), and at most `receive time + rcodeFailureCachingDuration` if it
+carries a failure rcode. Depends on the Gen facts `failureExpiryMin`, `answerExpiryMin`. -/
+theorem expiry_le_every_ttl (cfg : Config) (now : Nat) (up : Upstream) :
+    ∃ tr, (sendQueries cfg now up).b = feed {} tr ∧ Sourced (FromUpstream up) tr ∧
+      ∀ pre t m u post, tr = pre ++ (t, Wire.msg m, u) :: post → Open (feed {} pre) m → Usable m →
+        (m.qOk = true → ∀ x ∈ m.answers, ExpLe (sendQueries cfg now up).b.exp (t + x.ttl * sec)) ∧
+        (rcodeFailure.contains m.rcode = true →
+          ExpLe (sendQueries cfg now up).b.exp (t + rcodeFailureCachingDuration)) := by
+  obtain ⟨tr, h1, h2⟩ := sendQueries_trace cfg now up
+  refine ⟨tr, h1, h2, ?_⟩
+  intro pre t m u post htr ho hu
+  rw [h1, htr, feed_append]
+  simp only [feed]
+  exact ⟨fun hq x hx => feed_lowers _ post _ (parseMsg_ans_le _ t m u ho hu hq x hx),
+         fun hf => feed_lowers _ post _ (parseMsg_fail_le _ t m u ho hu hf)⟩
+
+/-- hypotheses of `expiry_le_every_ttl` are satisfiable: the F11 witness (A with TTL 10 s, then AAAA
+SERVFAIL) — with the repaired source the entry expires after 10 s, not 30 s. -/
+def f11Up : Upstream := { conns := [.conn
+  [.wire 0 (.msg { id := 4, response := true, ra := true, tc := false, rcode := 0, qOk := true,
+                   answers := [{ kind := 1, ttl := 10, addr := "c0000201" }], ansEnd := .done, auths := [], authEnd := .done }),
+   .wire 0 (.msg { id := 6, response := true, ra := true, tc := false, rcode := 2, qOk := true,
+                   answers := [], ansEnd := .done, auths := [], authEnd := .done })] (.close 0)] }
+
+example : (sendQueries { hasUDP := false, hasTCP := true, cap := 4 } 0 f11Up).b.exp = some (10 * sec) := by decide
+
+/-- a fresh lookup result is the builder's result -/
+theorem fresh_is_builder (cfg : Config) (st : State) (name : String) (up : Upstream) (r : Result)
+    (h : (lookup cfg st name up).out = .fresh r) : r = (sendQueries cfg st.now up).b.result := by
+  unfold lookup at h
+  dsimp only at h
+  split at h
+  · split at h
+    · cases h
+    · split at h <;> cases h; rfl
+  · split at h <;> cases h; rfl
+
+/-- **no_reuse_after_expiry.** (a) A lookup is served from the cache only while the entry's expiry
+has not passed: then the cached entry is returned as it is and upstream is not asked. (b) Once the
+expiry of the cached entry has passed (or there is none), upstream is asked again. -/
+theorem no_reuse_after_expiry (cfg : Config) (st : State) (name : String) (up : Upstream) :
+    (∀ r, (lookup cfg st name up).out = .hit r →
+        Spec.find st.cache name = some r ∧ (∃ e, r.exp = some e ∧ st.now ≤ e) ∧ (lookup cfg st name up).send = none) ∧
+    ((∀ r, Spec.find st.cache name = some r → r.hasExpired st.now = true) →
+        (lookup cfg st name up).send = some (sendQueries cfg st.now up)) := by
+  have hg := get_snd st.cache name
+  unfold lookup
+  dsimp only
+  cases hf : Spec.find st.cache name with
+  | none =>
+    rw [hf] at hg
+    simp only [hg]
+    refine ⟨?_, ?_⟩
+    · intro r h; split at h <;> cases h
+    · intro _; split <;> rfl
+  | some r0 =>
+    rw [hf] at hg
+    simp only [hg]
+    refine ⟨?_, ?_⟩
+    · intro r h
+      split at h
+      · rename_i hne
+        cases h
+        refine ⟨rfl, ?_, by simp [hne]⟩
+        unfold Result.hasExpired at hne
+        cases he : r0.exp with
+        | none => simp [he] at hne
+        | some e => simp only [he] at hne; exact ⟨e, rfl, by simpa using hne⟩
+      · split at h <;> cases h
+    · intro hall
+      have := hall r0 rfl
+      simp only [this, Bool.not_true, Bool.false_eq_true, if_false]
+      split <;> rfl
+
+/-- **stale_only_on_failure.** An expired entry is served only if it is the cached entry for the
+name, it has expired, and asking upstream failed (not both families answered on any transport). -/
+theorem stale_only_on_failure (cfg : Config) (st : State) (name : String) (up : Upstream) (r : Result)
+    (h : (lookup cfg st name up).out = .stale r) :
+    Spec.find st.cache name = some r ∧ r.hasExpired st.now = true ∧ (sendQueries cfg st.now up).b.isDone = false := by
+  have hg := get_snd st.cache name
+  unfold lookup at h
+  dsimp only at h
+  cases hf : Spec.find st.cache name with
+  | none =>
+    rw [hf] at hg; simp only [hg] at h
+    split at h <;> cases h
+  | some r0 =>
+    rw [hf] at hg; simp only [hg] at h
+    split at h
+    · cases h
+    · rename_i hexp
+      split at h
+      · rename_i hnd
+        cases h
+        exact ⟨rfl, by simpa using hexp, by simpa using hnd⟩
+      · cases h
 
 end SSV.C17
 
-#print axioms SSV.C17.garbage_no_effect
+#print axioms SSV.C17.lru_refines_map
+#print axioms SSV.C17.spec_get_keeps_bindings
+#print axioms SSV.C17.expiry_le_every_ttl
+#print axioms SSV.C17.fresh_is_builder
+#print axioms SSV.C17.no_reuse_after_expiry
+#print axioms SSV.C17.stale_only_on_failure
